@@ -1,9 +1,10 @@
 CONSTANTS
+  Dom = "cfg"
   NCb = 0
   Names = {}
   PlanIds = {}
   MaxRaise = 0
-  DeliverAll = FALSE
+  DeliverAlls = {}
 SPECIFICATION TraceSpec
 INVARIANT C19_OnceInOrder
 INVARIANT C19_InvocationOrder
